@@ -5,11 +5,11 @@
 From TP Require Import Model.Prelude Extracted Model.Toxics Proofs.SlicerProofs Proofs.StageContract
      Proofs.StageRun Proofs.C12Proofs.
 
-(** for 0 <= size_variation < average_size, every size and every sequence of random draws: the
+(** for 0 <= size_variation < average_size (ints, i.e. below 2^63; offsets are slice indices, likewise), every size and every sequence of random draws: the
     recursion terminates within size+1 levels and the offsets partition [start,end) into
     consecutive non-empty pieces of at most average_size + size_variation bytes *)
 Theorem C12_chunk_spec : forall (fuel : nat) avg var start end_ draws,
-  0 <= var < avg -> start <= end_ -> (Z.to_nat (end_ - start) < fuel)%nat ->
+  0 <= var < avg -> avg < two63 -> 0 <= start -> end_ < two63 -> start <= end_ -> (Z.to_nat (end_ - start) < fuel)%nat ->
   exists os ds, slicer_chunk fuel avg var start end_ draws = CROk os ds /\
                 covers os start end_ /\ (start < end_ -> pieces_within (avg + var) os).
 Proof. exact slicer_chunk_spec. Qed.
@@ -20,6 +20,7 @@ Proof. exact slicer_chunk_spec. Qed.
 Theorem C12_chunk_through : forall avg var delay,
   0 <= var < avg ->
   forall ps now draws (c : chunk) fuel,
+  avg < two63 -> zlen (cdata c) < two63 ->
   0 < zlen (cdata c) ->
   let s := fst (on_input (TSlicer avg var delay) ps now draws (Some c) (Idle 0 None)) in
   let r := stage_emit (TSlicer avg var delay) ps now fuel None s in
@@ -29,9 +30,9 @@ Theorem C12_chunk_through : forall avg var delay,
 Proof. exact slicer_chunk_through. Qed.
 
 (** interrupted (update / removal) in any wait, i.e. at any piece boundary: what was emitted plus
-    what is still held is exactly the input - nothing lost or duplicated *)
-Theorem C12_stream_exact : forall avg var delay, 0 <= var < avg ->
-  forall ps now draws (c : chunk) fuel intr_at,
+    what is still held is exactly the input - nothing lost or duplicated (for every attribute
+    value, since the repair of F5a) *)
+Theorem C12_stream_exact : forall avg var delay ps now draws (c : chunk) fuel intr_at,
   let s := fst (on_input (TSlicer avg var delay) ps now draws (Some c) (Idle 0 None)) in
   let r := stage_emit (TSlicer avg var delay) ps now fuel intr_at s in
   emitted r ++ held (final_st r) = cdata c.
@@ -51,6 +52,10 @@ Proof. exact c12_interrupt. Qed.
 Theorem C12_send_not_interruptible : forall (c : chunk) k now, on_interrupt now (Send c k) = Send c k.
 Proof. exact c12_send_not_interruptible. Qed.
 
-(** outside the guard the recursion need not terminate (default attributes 0/0, one byte): C07 *)
-Theorem C12_diverges_outside_guard : forall (fuel : nat) draws, slicer_chunk fuel 0 0 0 1 draws = CRFuel.
-Proof. exact slicer_chunk_diverges_default. Qed.
+(** outside the documented range the recursion still terminates and partitions the chunk; the
+    pieces are non-empty but their size is not bounded by the attributes, whose arithmetic may wrap (C07; the pinned code diverged on 0/0: F5a) *)
+Theorem C12_total_any_attributes : forall (fuel : nat) avg var start end_ draws,
+  start <= end_ -> (Z.to_nat (end_ - start) < fuel)%nat ->
+  exists os ds, slicer_chunk fuel avg var start end_ draws = CROk os ds /\
+                covers os start end_ /\ (start < end_ -> pieces_within (end_ - start) os).
+Proof. exact slicer_chunk_total. Qed.
